@@ -51,6 +51,9 @@ def gen_case(rng, i, stratum):
         v = "".join(parts)
         if not v.startswith("/") and not v.startswith("@{"):
             v = "/" + v
+        if stratum == "quoted" and rng.random() < 0.4:
+            # a value with a blank, written in quotes as the shipped tree does (`@{name} = proton-mail "Proton Mail"`)
+            v = '"%s/My App%d"' % (v.rstrip("/"), rng.randint(1, 3))
         return v
 
     appends = []
@@ -205,7 +208,7 @@ def run(ctx):
                 "process) vs apparmor_parser -d -D expanded-variables on the same text: same value sets per variable and attachment, same "
                 "accept/reject, and every non-variable preamble entry kept. Non-trivial = preambles with a += or a reference")
     # ("+= before =" is not among the errors the statement lists: not generated)
-    strata = ["plain"] * 9 + ["builtin"] * 3 + ["undefined", "self", "self-append", "redefine"]
+    strata = ["plain"] * 9 + ["builtin"] * 3 + ["undefined", "self", "self-append", "redefine", "quoted"]
     from .c09 import source_overlay
     ov = source_overlay(ctx)
     cases = []
@@ -295,7 +298,8 @@ def run(ctx):
         if bad:
             miss = sorted((bad[2] or set()) - (bad[1] or set()))[:3]
             extra = sorted((bad[1] or set()) - (bad[2] or set()))[:3]
-            viol("C13/values-differ/%s" % ("attachment" if bad[0] == "attachment" else "variable"),
+            quoted_in = st == "quoted" and re.search(r'^@\{\w+\}\s*\+?=.*"', text, re.M)
+            viol("C13/quoted-value/values-differ" if quoted_in else "C13/values-differ/%s" % ("attachment" if bad[0] == "attachment" else "variable"),
                  "%s resolves differently from the reference parser: missing %s, extra %s\n%s" % (bad[0], miss, extra, text[-400:]), {"text": text})
             continue
         # the rest of the preamble is kept
